@@ -8,7 +8,10 @@ Driver commands of group `frontend` (C10).
 `(compile-doc <schema-id> <view> <doc>)` answers `panic` | `ok` | `(err parse <Variant>)` |
 `(err frontend <Variant>…)`: the outcome class of `frontend::parse` minus the text parser
 (`parse_doc` + the `IndexedQuery` conversion) against the schema described by `<view>`; the
-`<schema-id>` only tells the harness which real schema to load.
+`<schema-id>` only tells the harness which real schema to load.  When a field of the view declares a
+parameter twice the answer is `(schema-rejected DuplicateFieldParameterDefinition)`: since the repair
+of F-C10-5 `Schema::parse` rejects such a text, so there is no schema to compile against (the model's
+`compile` on such a view is still the kernel-checked witness `TF.C10.paramDuplicate_witness`).
 `(view-valid <schema-id> <view>)` answers `1`/`0`: whether the view satisfies the hypothesis
 `ValidSchemaView` of the totality theorems (decided by `validSchemaViewB`).
 `(text-nopanic <hex>)` answers the constant `nopanic` (the byte-level stream explores the external
@@ -198,6 +201,11 @@ def renderCompile (r : Res CompileErr Unit) : String :=
   | .err (.frontend es) => "(err frontend " ++ " ".intercalate (es.map renderFrontErr) ++ ")"
   | .panic _ => "panic"
 
+/-- Some field of the view declares the same parameter name twice: such a schema text is rejected by
+`Schema::parse` (`DuplicateFieldParameterDefinition`) since the repair of F-C10-5. -/
+def viewDeclaresParamTwice (view : SchemaView) : Bool :=
+  view.types.any fun t => t.fields.any fun f => !decide (f.params.map (·.name)).Nodup
+
 def handleFrontend : String → List Sexp → Option String
   | "parse-doc", [d] => do
     let doc ← toDoc d
@@ -208,7 +216,11 @@ def handleFrontend : String → List Sexp → Option String
   | "compile-doc", [.atom _, v, d] => do
     let view ← toSchemaView v
     let doc ← toDoc d
-    pure (renderCompile (compile view doc))
+    -- since the repair of F-C10-5 `Schema::parse` rejects a schema text in which a field declares a
+    -- parameter twice (`DuplicateFieldParameterDefinition`, modelled in `Model/SchemaDoc.lean`,
+    -- `TF.C19.accepted_params_distinct`): there is no `Schema` to compile against
+    pure (if viewDeclaresParamTwice view then "(schema-rejected DuplicateFieldParameterDefinition)"
+      else renderCompile (compile view doc))
   | "compile-site", [.atom _, v, d] => do
     -- developer aid: the panic site
     let view ← toSchemaView v
